@@ -725,5 +725,12 @@ def r8(ctx):
                   "a frame is returned with the undropped index: a part without columns keeps all rows while the other parts lost the dropped ones")
 
 
+
+def f1(ctx):
+    """generic same-name parameter forwarding over this property's modules (see shared.generic_forwarding)."""
+    from . import shared as _sh
+    _sh.generic_forwarding(ctx, "C06.F1", _sh.PROPERTY_MODULES["C06"])
+
+
 RULES = [("C06.R1", r1), ("C06.R2", r2), ("C06.R3", r3), ("C06.R4", r4), ("C06.R5", r5), ("C06.R6", r6), ("C06.R7", r7),
-         ("C06.R8", r8)]
+         ("C06.R8", r8), ("C06.F1", f1)]
